@@ -108,6 +108,25 @@ func TestGovcReplay(t *testing.T) {
 			}
 		}
 	}
+	// boundary battery (used as well when the solver gave no model): starts on and off the step grid,
+	// ranges of exactly one step, ranges crossing one or several interval boundaries
+	if len(msgs) == 0 {
+		for _, iv := range []int64{1000 * 1000000, 3600 * 1000 * 1000000} {
+			I := iv / 1000000
+			for _, step := range []int64{1, 7, 15000, I, I + 1, 3 * I} {
+				for _, start := range []int64{0, 7000, I - 1, I, I + 7} {
+					for _, span := range []int64{0, 1, step - 1, step, step + 1, I, 2*I + step, 3 * I} {
+						if span < 0 || len(msgs) >= 3 {
+							continue
+						}
+						if m := govcCheckSplit(start, start+span, step, time.Duration(iv)); m != "" {
+							msgs = append(msgs, m)
+						}
+					}
+				}
+			}
+		}
+	}
 	if len(msgs) > 0 {
 		fmt.Println("REPLAY: reproduced:", strings.Join(msgs, "; "))
 		t.Fail()
